@@ -124,7 +124,7 @@ class Gen:
         if k == "goto":
             return [ind + "goto " + r.choice(ctx["gotos"])]
         if k == "return":
-            return [ind + ("return" if r.chance(1, 2) else "return a + b")]
+            return [ind + ("return" if (r.chance(1, 2) or not ctx.get("val")) else "return a + b")]
         if k == "panic":
             return [ind + 'panic("x")']
         return [ind + k]
@@ -215,7 +215,7 @@ class Gen:
                 return [ind + "defer func() {", i2 + "if e := recover(); e != nil {", i2 + "\tr = -1", i2 + "}", ind + "}()"]
             return [ind + "defer g(a)"]
         if k == "closure":
-            c2 = dict(loops=[], inloop=False, inswitch=False, gotos=[], budget=ctx["budget"])
+            c2 = dict(loops=[], inloop=False, inswitch=False, gotos=[], budget=ctx["budget"], val=False)
             return [ind + "func() {"] + self.block(c2, depth - 1, i2) + [ind + "}()"]
         if k == "block":
             return [ind + "{"] + self.block(ctx, depth - 1, i2) + [ind + "}"]
@@ -260,7 +260,7 @@ class Gen:
         budget = [6 + r.below(30)]
         segs = []
         for i in range(n):
-            ctx = dict(loops=[], inloop=False, inswitch=False, gotos=labs if r.chance(3, 4) else [], budget=budget)
+            ctx = dict(loops=[], inloop=False, inswitch=False, gotos=labs if r.chance(3, 4) else [], budget=budget, val=True)
             budget[0] = max(budget[0], 3)
             segs.append(self.block(ctx, 1 + r.below(4), "\t"))
         return self.assemble(name, labs, segs, defer=r.chance(1, 5))
@@ -510,9 +510,20 @@ def replay(ctx, R):
 
 
 def run(ctx):
+    import time
+    timing = {}
+    t0 = time.time()
+
+    def lap(name):
+        nonlocal t0
+        timing[name] = round(time.time() - t0, 1)
+        t0 = time.time()
+
     lean_ok, lean_broke = vlib.std_lean_phase(ctx, MODULES, THEOREMS)
+    lap("lean_build_audit")
     have_driver = os.path.exists(vlib.driver_path("C14"))
     tool = vlib.build_harness(ctx, "c14dump")
+    lap("go_build")
     quick = ctx.quick
     R = Runner(ctx, tool, full=128 if quick else 384)
     hist = {}
@@ -541,8 +552,9 @@ def run(ctx):
         tfiles.sort()
         if tfiles:
             R.process(R.dump(["-src"] + tfiles), "go/ir/testdata", sources={p: open(p).read() for p in tfiles})
+        lap("corpus_testdata")
         # 3. generated programs
-        nfiles, per = (96, 60) if quick else (640, 80)
+        nfiles, per = (64, 50) if quick else (640, 80)
         files, texts, hist = gen_sources(ctx, nfiles, per, "main")
         groups = chunks(files, 6 if quick else 10)
 
@@ -566,17 +578,20 @@ def run(ctx):
             done = list(ex.map(val, subs))
         for r2 in done:
             merge(R, r2)
+        lap("generated")
         # 4. real packages: the repository under test and the standard library
         if quick:
-            pats = [["./go/ir", "./pattern", "./unused"], ["go/types", "regexp/syntax", "encoding/json", "fmt"]]
+            pats = [["./go/ir", "./pattern", "./unused", "go/types", "regexp/syntax", "encoding/json", "fmt"]]
         else:
             pats = [["./..."], ["std"]]
         for pat in pats:
             so = R.dump(["-dir", vlib.REPO, "-pkgs"] + pat)
             R.process(so, "packages " + " ".join(pat))
 
+    lap("packages")
     st = R.stats
     ctx.coverage.update({
+        "timing_s": timing,
         "evaluations": st["pairs"],
         "programs": st["functions"],
         "disagreements_checked": st["pairs"],
